@@ -35,10 +35,12 @@ CLAIM = dict(
     "state machine (kernel in force, np.unique sort/de-duplication of supports with re-indexed values, cached inverse, update / "
     "update_kernel / update_model_parameters(values)): for ALL update sequences the cached inverse and the weights belong to the "
     "current kernel, supports and values, hence reproduction at the current supports whenever the current kernel matrix is "
-    "invertible (any field, abstract kernel). The model is tied to the classes by an exact "
+    "invertible (any field, abstract kernel); the accumulation loop of linear_combination equals the plain kernel sum for every "
+    "kernel function and the three supported signal shapes (tied EXACTLY for LinearKernel, numba and plain, on dyadic float32 "
+    "inputs). The model is tied to the classes by an exact "
     "differential correspondence on dyadic inputs incl. error classes and by G1 tables of the dof dispatch.",
     note="the kernel state machine is tied by a correspondence on random op sequences (discrete state exactly; interpolation_weights "
-    "against inv(K(key)) @ values for the key the model predicts); partial for kernel interpolation: exp, np.linalg.inv, float32 and the numba kernels are only observed (reproduction "
+    "against inv(K(key)) @ values for the key the model predicts); OBSERVED ONLY for kernel interpolation: the values of exp (GaussianKernel), np.linalg.inv, float32 rounding and fastmath on non-dyadic data (reproduction "
     "1e-4, numba vs plain sum 1e-5), on fresh objects and along update sequences on one object (same-count new supports, "
     "value-only updates, changed count, AdvancedKernelInterpolation) with equality to a fresh object after every step; every "
     "updatable parameter is also set to exactly 0 through every route; cv2.resize of label maps of another shape is outside the model.",
@@ -1210,6 +1212,40 @@ def oracle_label_sequences(ctx, d):
                      {"label_sequence": {"labels": lab, "shapes": [list(s_) for s_ in shapes], "scaling": [str(x) for x in sc], "offset": [str(x) for x in of]}, **bad})
 
 
+def linear_kernel_correspondence(ctx, d):
+    """LinearKernel.linear_combination (numba, float32) and BaseKernel.linear_combination (plain numpy) against the model's loop,
+    EXACTLY: supports / signals multiples of 1/4 in [0,3], weights multiples of 1/16, shift a multiple of 1/4 - every product and
+    partial sum fits into 24 mantissa bits, so float32 arithmetic (also reassociated by fastmath) is exact."""
+    rng = ctx.rng
+    lines, impl_fast, impl_plain = [], [], []
+    for t in range(ctx.pick(24, 200)):
+        a = Fraction(rng.randint(0, 8), 4)
+        n = rng.randint(1, 4)
+        ws = [Fraction(rng.randint(-16, 16), 16) for _ in range(n)]
+        ss = [[Fraction(rng.randint(0, 12), 4) for _ in range(3)] for _ in range(n)]
+        kind = ("p", "l", "g")[t % 3]
+        if kind == "p":
+            shape, head = (3,), "p"
+        elif kind == "l":
+            N = rng.randint(1, 5)
+            shape, head = (N, 3), f"l {N}"
+        else:
+            H, W = rng.randint(1, 3), rng.randint(1, 3)
+            shape, head = (H, W, 3), f"g {H} {W}"
+        vals = [Fraction(rng.randint(0, 12), 4) for _ in range(int(np.prod(shape)))]
+        lines.append(f"lincomb {fmt(a)} {n} " + " ".join(fmt(w) + " " + fmts(s_) for w, s_ in zip(ws, ss)) + f" | {head} " + fmts(vals))
+        kern = d.LinearKernel(float(a))
+        sig32 = np.array([float(v) for v in vals], dtype=np.float32).reshape(shape)
+        S32 = np.array([[float(c) for c in s_] for s_ in ss], dtype=np.float32)
+        w32 = np.array([float(w) for w in ws], dtype=np.float32)
+        fast = call(kern.linear_combination, sig32, S32, w32)
+        plain = call(d.BaseKernel.linear_combination, kern, sig32.astype(float), S32.astype(float), w32.astype(float))
+        for out, dest in ((fast, impl_fast), (plain, impl_plain)):
+            dest.append(repr(out) if isinstance(out, Raised) else ("!shape" if np.asarray(out).shape != shape[:-1] else fmts(np.asarray(out, dtype=float).ravel())))
+    ctx.correspond("linear-kernel-numba-loop", lines, impl_fast)
+    ctx.correspond("linear-kernel-plain-loop", lines, impl_plain)
+
+
 def oracle_kernel(ctx, d):
     rng = np.random.default_rng(ctx.rng.randrange(2**31))
     worst_rep, worst_numba = 0.0, 0.0
@@ -1402,6 +1438,7 @@ def run(ctx):
     oracle_kernel(ctx, d)
     oracle_kernel_sequences(ctx, d)
     kernel_state_correspondence(ctx, d)
+    linear_kernel_correspondence(ctx, d)
     oracle_kernel_parameters(ctx, d)
     ctx.cov["rule"] = ("distinct = distinct request lines / (clause, parameters); dyadic stream only (exact comparison); "
                        ">= 85 % of routing cases valid for the API, the rest checks error classes")
